@@ -30,7 +30,8 @@ using isagen::State;
 
 static uint64_t g_cases = 0, g_steps = 0, g_defined = 0, g_undefined = 0, g_outOfDomain = 0, g_nontrivialSeq = 0;
 static std::map<std::string, uint64_t> g_classes;
-static std::set<uint64_t> g_distinct;
+static std::set<uint64_t> g_distinct;       // hashes of generated *states* / images (bounded by the number of cases)
+static uint64_t g_distinctSteps = 0;        // defined (byte, state) steps of states seen for the first time
 static std::vector<std::string> g_samples;
 static std::string g_failJson;
 static const char *g_failFile = nullptr;
@@ -208,6 +209,7 @@ static void classifyStep(const refisa::StepInfo &si, uint32_t aregBefore, bool p
 
 static std::string runGridState(const State &s, int onlyByte, bool memcmpEachByte, int *failByte) {
   Pair pr(s.input);
+  bool newState = g_distinct.insert(hashMix(hashMix(hashMix(hashMix(hashMix(s.pc, s.areg), s.breg), s.oreg), s.target), s.targetVal ^ ((uint64_t)s.sp << 20))).second;
   for (int inst = 0; inst < 256; inst++) {
     if (onlyByte >= 0 && inst != onlyByte) continue;
     auto pl = isagen::plant(s, (uint8_t)inst, false);
@@ -223,7 +225,8 @@ static std::string runGridState(const State &s, int onlyByte, bool memcmpEachByt
       g_defined++;
       classifyStep(si, before, pl.oreg != 0);
       uint64_t h = hashMix(hashMix(hashMix(hashMix(inst, pl.pc), pl.areg), pl.breg), pl.oreg);
-      g_distinct.insert(hashMix(h, s.targetVal));
+      if (newState) g_distinctSteps++;
+      (void)h;
       if (si.isSvc) {
         uint32_t stream = si.svcNum == 1 ? s.spVals[2] : s.spVals[1];
         if (si.svcNum != 0) cls((int32_t)stream < 256 ? "stream:console" : "stream:file");
@@ -275,7 +278,7 @@ static void writeStats(bool ok) {
   if (!f) return;
   vjson::Obj o;
   o.num("cases", g_cases); o.num("steps", g_steps); o.num("defined_grid_steps", g_defined); o.num("undefined", g_undefined);
-  o.num("out_of_domain", g_outOfDomain); o.num("nontrivial_sequences", g_nontrivialSeq); o.num("distinct", g_distinct.size());
+  o.num("out_of_domain", g_outOfDomain); o.num("nontrivial_sequences", g_nontrivialSeq); o.num("distinct", g_distinctSteps);
   vjson::Obj c; for (auto &kv : g_classes) c.num(kv.first, kv.second); o.raw("classes", c.done());
   vjson::Arr s; for (auto &x : g_samples) s.raw(x); o.raw("samples", s.done());
   o.boolean("ok", ok);
@@ -322,7 +325,7 @@ int main(int argc, char **argv) {
       if (g_samples.size() < 4 && g_cases % 50 == 7) g_samples.push_back(isagen::toJson(q));
       uint64_t steps = 0;
       std::string d = runImage(file, q.input, 400, &steps, true);
-      if (steps >= 8) { g_nontrivialSeq++; uint64_t h = 0; for (auto c : bytes) h = hashMix(h, c); g_distinct.insert(h); }
+      if (steps >= 8) { g_nontrivialSeq++; uint64_t h = 0; for (auto c : bytes) h = hashMix(h, c); if (g_distinct.insert(h).second) g_distinctSteps++; }
       if (!d.empty()) {
         vjson::Obj o; o.str("kind", "image"); o.hex("file", file); o.hex("input", q.input); o.str("diff", d); o.num("max_steps", 400);
         recordFail(o.done());
@@ -336,7 +339,7 @@ int main(int argc, char **argv) {
     uint64_t steps = 0;
     g_cases++;
     std::string d = runImage(file, input, maxSteps, &steps, true);
-    if (steps >= 8) { g_nontrivialSeq++; uint64_t h = 0; for (auto c : file) h = hashMix(h, (unsigned char)c); g_distinct.insert(h); }
+    if (steps >= 8) { g_nontrivialSeq++; uint64_t h = 0; for (auto c : file) h = hashMix(h, (unsigned char)c); if (g_distinct.insert(h).second) g_distinctSteps++; }
     if (!d.empty()) {
       vjson::Obj o; o.str("kind", "image"); o.hex("file", file.size() < 20000 ? file : std::string()); o.str("path", argv[2]); o.hex("input", input); o.str("diff", d);
       recordFail(o.done());
